@@ -23,6 +23,18 @@ def programs(ctx):
         if rng.random() < 0.15:
             p.append({'part': rng.choice(gen.PARTS[:3]), 'head': ('norm', '-' + atoms[0], rng.randint(1, maxfut)), 'body': [(rng.choice('pn'), ('patom', atoms[-1], 0))]})
         progs.append(('future', p))
+    # exhaustive small family: constraints (and rules with a negative head) with two future atoms of different depth in both textual orders,
+    # in every part and with every sign combination - the deeper atom decides the window, wherever it stands
+    for part in ('always', 'dynamic', 'initial'):
+        for (d1, d2) in ((2, 1), (1, 2), (3, 1), (1, 3)):
+            for s1 in 'pn':
+                for s2 in 'pn':
+                    c = [{'part': 'always', 'head': ('choice', ['a', 'b']), 'body': []},
+                         {'part': part, 'head': ('cons',), 'body': [(s1, ('fatom', 'a', d1)), (s2, ('fatom', 'b', d2))]}]
+                    progs.append(('two-depths', c))
+            c = [{'part': 'always', 'head': ('choice', ['a', 'b']), 'body': []},
+                 {'part': part, 'head': ('neghead', 'n', 'a', d1), 'body': [('p', ('fatom', 'b', d2)), ('p', ('patom', 'a', 0))]}]
+            progs.append(('two-depths', c))
     return progs
 
 
